@@ -32,6 +32,8 @@ NOTES = {
  'C06-d': 'late round. Missed at first: every generated handler died at once when cancelled -> handlers that need time to unwind (`cleanup` attribute: an awaited sleep in the cancellation path, cut short by a second cancellation) and profile `timeouts_cleanup`; the first version of that harness code forgot the exit record when the unwinding itself was cancelled and produced a false overlap on the unchanged tree (corrected before the profile was registered)',
  'C07-d': 'late round. Missed at first: forwarding topologies had no handler timeouts -> profile `topo_timeouts` (slow, child-less handlers with short timeouts next to forwards)',
  'C11-d': 'late round. Missed at first: generated exceptions were never chained -> kind `Chained` (`raise X from Y` inside an `except` block) in the error profiles. (On the unchanged tree such an exception makes the library\'s traceback filter recurse until RecursionError, which is swallowed after the error has been recorded - no property of this list is affected.)',
+ 'C10-f': 'sixth round (continuation session, after the F28 repair moved the idle notification into the `finally` of the inline processing). Caught as built, first by the pinned F5b reproducer (a `fixed` entry replayed as a regression test), then by exploration',
+ 'C15-f': 'sixth round (continuation session). Caught as built: `idle_dead_loop` cancels a run loop inside a handler and a later `wait_idle` hangs',
  'C04-c': 'missed at first: C04 profiles had no handler timeouts -> `timeouts` added to C04 (and F5b recognised there)',
 }
 out = ['| seeded id | property | change (by an independent sub-agent) | needs | caught by (quick check: clauses) | note |', '|---|---|---|---|---|---|']
